@@ -68,6 +68,16 @@ class CFG:
                     b.elems.append(Elem("other", None, e, b.id, pos))
             if "cond" in rb:
                 b.cond = resolve(rb["cond"])
+                # canonical polarity: a branch on `!c` is the branch on `c` with its two successors exchanged (successor 0 = condition true)
+                if b.cond is not None and len(b.succ) == 2:
+                    c_, nots = b.cond, 0
+                    while c_ is not None and ((c_.get("k") == "un" and c_.get("op") == "!") or c_.get("k") == "paren") and c_.get("c"):
+                        nots += c_.get("k") == "un"
+                        c_ = c_["c"][0]
+                    if nots and c_ is not None:
+                        b.cond = c_
+                        if nots % 2:
+                            b.succ = [b.succ[1], b.succ[0]]
             self.blocks[b.id] = b
         for b in self.blocks.values():
             for s in b.succ:
